@@ -395,7 +395,9 @@ impl<C: CrcCalculator> Encapsulator<C> {
             }
 
             pkt_type = PktType::FirstFragPkt;
-            pdu_len_encapsulated = buffer_len - min_header_len;
+            // a GSE packet cannot be longer than GSE_LEN_MAX + FIXED_HEADER_LEN, whatever the buffer
+            pdu_len_encapsulated =
+                (buffer_len - min_header_len).min(GSE_LEN_MAX + FIXED_HEADER_LEN - min_header_len);
             gse_len =
                 (FRAG_ID_LEN + TOTAL_LENGTH_LEN + PROTOCOL_LEN + label_len + pdu_len_encapsulated)
                     as u16;
@@ -908,7 +910,9 @@ pub fn encap_preview(
         }
 
         pkt_type = PktType::FirstFragPkt;
-        pdu_len_encapsulated = buffer_len - min_header_len;
+        // a GSE packet cannot be longer than GSE_LEN_MAX + FIXED_HEADER_LEN, whatever the buffer
+        pdu_len_encapsulated =
+            (buffer_len - min_header_len).min(GSE_LEN_MAX + FIXED_HEADER_LEN - min_header_len);
         gse_len = (FRAG_ID_LEN + TOTAL_LENGTH_LEN + PROTOCOL_LEN + label_len + pdu_len_encapsulated)
             as u16;
         pkt_len = gse_len + (FIXED_HEADER_LEN) as u16;
